@@ -433,6 +433,17 @@ static int32_t rtosc_convert_to_range(const rtosc_arg_val_t* const arg,
         if(delta_from_arg_vals(arg, arg+1, arg+(num_common-1), &delta2, 0)
            != (int32_t)num_common-1)
             return 0;
+        // a step of +-1 is not printed: the readers then take the direction
+        // from comparing first and last (this fails if the run wraps around
+        // the end of its type)
+        rtosc_arg_val_t one, m_one;
+        rtosc_arg_val_from_int(  &one, type,  1);
+        rtosc_arg_val_from_int(&m_one, type, -1);
+        if((   rtosc_arg_vals_eq_single(&delta,   &one, NULL)
+            || rtosc_arg_vals_eq_single(&delta, &m_one, NULL))
+           && delta_from_arg_vals(NULL, arg, arg+(num_common-1), &delta2, 1)
+              != (int32_t)num_common)
+            return 0;
     }
 
     if(num_common >= range_min)
